@@ -8,9 +8,18 @@ import os
 import re
 import sys
 
+import hashlib
+
 VERIF = os.path.dirname(os.path.dirname(os.path.abspath(__file__)))
+
+
+def sig(b):
+    """short hash of the signature: kind, impl self type, trait, types of the return place and the parameters (same function as mirlib.ir._sig)"""
+    t = json.dumps([b.get("kind"), b.get("impl_self"), b.get("impl_trait"), [l["ty"] for l in b["locals"][:b["argc"] + 1]]], sort_keys=True)
+    return hashlib.md5(t.encode()).hexdigest()[:10]
 root = sys.argv[1] if len(sys.argv) > 1 else os.path.join(VERIF, "work", "facts")
 out = {}
+by_cfg = {}
 n = 0
 for f in glob.glob(os.path.join(root, "*", "*", "*.json")):
     raw = json.load(open(f))
@@ -18,8 +27,13 @@ for f in glob.glob(os.path.join(root, "*", "*", "*.json")):
         continue
     n += 1
     s = out.setdefault(raw["package"], set())
+    c = by_cfg.setdefault(raw["package"], {}).setdefault(os.path.basename(os.path.dirname(f)), {})
     for b in raw["bodies"]:
         if b["kind"] != "closure":
             s.add(re.sub(r"::<[^<>]*>", "", b["path"]))
-json.dump({k: sorted(v) for k, v in sorted(out.items())}, open(os.path.join(VERIF, "mirlib", "known_fns.json"), "w"), indent=0)
+            c[re.sub(r"::<[^<>]*>", "", b["path"])] = sig(b)
+res = {k: sorted(v) for k, v in sorted(out.items())}
+# per configuration: which of them exist under that feature set (a function missing from its own configuration's list was renamed or removed)
+res["@by_config"] = {k: {c: dict(sorted(v.items())) for c, v in sorted(cs.items())} for k, cs in sorted(by_cfg.items())}
+json.dump(res, open(os.path.join(VERIF, "mirlib", "known_fns.json"), "w"), indent=0)
 print("fact files %d; %s" % (n, {k: len(v) for k, v in out.items()}))
